@@ -843,12 +843,19 @@ def shard_create_copy(desc, rec):
         if i % 2:
             with t_old:
                 pass
+        st_ = os.stat(p)
         open(p, "wb").write(content)
+        if len(content) == st_.st_size:
+            # replaced in place by as many bytes, modification time put back: same inode, size and mtime as the TDF file
+            os.utime(p, ns=(st_.st_atime_ns, st_.st_mtime_ns))
+            rec.count("c17:non-tdf-bytes-with-the-inode-size-and-mtime-of-the-tdf-file")
         rec.count("oracle:C17.open-non-tdf(object created earlier)")
+        # (len(tdf) is not among them: it never opens the path - outside a context it reports the table of the last
+        # context, which says nothing about what the path holds now)
         # every attempt is judged, also the ones that follow a refused attempt on the same object (a refusal must not
         # leave the object in a state in which it answers from what it parsed earlier)
         attempts = [("with", lambda: t_old.__enter__() and (t_old.nEntries, len(t_old.entries))), ("len(blocks)", lambda: len(t_old.blocks)),
-                    ("has_events", lambda: t_old.has_events), ("len", lambda: len(t_old)), ("has_data3D", lambda: t_old.has_data3D),
+                    ("has_events", lambda: t_old.has_events), ("has_data3D", lambda: t_old.has_data3D),
                     ("get_block(0)", lambda: t_old.get_block(0)), ("events", lambda: t_old.events)]
         rng.shuffle(attempts)
         for q_, (how_, fn_) in enumerate(attempts[:4] * 2):
